@@ -2,7 +2,7 @@
    loaded back to parts that rebuild the SAME index (same entries in the same order, same common), which
    is therefore equal to the one saved and well-formed. *)
 From Coq Require Import ZArith List Bool Lia FinFun.
-From Catii Require Import Base.Sorted IIndex.Model Indx.Bytes Indx.Layout Indx.Save Indx.Load Indx.RoundTrip Indx.Rebuild.
+From Catii Require Import Base.Sorted IIndex.Model Indx.Bytes Indx.BytesFacts Indx.Layout Indx.Save Indx.Load Indx.RoundTrip Indx.Rebuild.
 Import ListNotations.
 Open Scope Z_scope.
 
